@@ -584,6 +584,8 @@ pub struct MethodInfo {
 	pub new_over: Option<fn(&Params, &[In]) -> Result<Vec<Out>, String>>,
 	/// Method::new_apply (ValueType -> ValueType methods only)
 	pub new_apply: Option<fn(&Params, &[In]) -> Result<Vec<Out>, String>>,
+	/// Method::new_fn: closure created from the first element and applied to every element
+	pub new_fn: Option<fn(&Params, &[In]) -> Result<Vec<Out>, String>>,
 }
 
 macro_rules! param {
@@ -649,6 +651,18 @@ macro_rules! sut {
 			make,
 			new_over: sut!(@newover $batch $m, $ad, $pk),
 			new_apply: sut!(@newapply $batch $m, $pk),
+			new_fn: {
+				fn f(p: &Params, xs: &[In]) -> Result<Vec<Out>, String> {
+					let owned: Vec<<$ad as InAd>::Owned> = xs.iter().map(<$ad as InAd>::own).collect();
+					if owned.is_empty() {
+						return Ok(Vec::new());
+					}
+					let params = param!($pk, p);
+					let mut f = <$m as Method>::new_fn(params, <$ad as InAd>::bor(&owned[0])).map_err(|e| format!("{e:?}"))?;
+					Ok(owned.iter().map(|o| f(<$ad as InAd>::bor(o)).into_out()).collect())
+				}
+				Some(f as fn(&Params, &[In]) -> Result<Vec<Out>, String>)
+			},
 		}
 	}};
 	(@newover none $m:ty, $ad:ty, $pk:ident) => { None };
@@ -755,6 +769,7 @@ pub fn methods() -> Vec<MethodInfo> {
 			make: make_ma,
 			new_over: None,
 			new_apply: None,
+			new_fn: None,
 		},
 	]
 }
